@@ -32,7 +32,9 @@ Proof.
   intros HG Hok (H1 & H2 & H3 & H4). destruct o as [off|t cap|t need]; cbn [step].
   - destruct Hok as [Ho1 Ho2]. destruct (Qlt_le_dec (used c) off); [|repeat split; assumption].
     unfold Inv; cbn. repeat split; try lra. assumption.
-  - unfold avail. destruct (Qlt_le_dec 0 (Qmax 0 (G - used c))) as [Ha|Ha]; [|repeat split; assumption].
+  - destruct (match entries c with [] => false | _ => if Qlt_le_dec 0 (used c) then false else true end);
+      [repeat split; assumption|].
+    unfold avail. destruct (Qlt_le_dec 0 (Qmax 0 (G - used c))) as [Ha|Ha]; [|repeat split; assumption].
     assert (Hav : Qmax 0 (G - used c) == G - used c).
     { apply Q.max_r. destruct (Qlt_le_dec (G - used c) 0) as [Hn|Hn]; [|exact Hn].
       exfalso. rewrite Q.max_l in Ha by lra. lra. }
